@@ -59,6 +59,9 @@ def gen_journal(rng):
             x = X.unbalance(rng, X.gen_balanced(rng, ncomm=1, with_costs=False), whole=False)
         elif r < 0.74:
             x = X.gen_half_unit(rng)
+            x.kind_tag = 'half'
+            if rng.random() < 0.45:
+                x = X.add_cancelling_pair(rng, x)      # the residue is judged inside a two-entry balance
         elif r < 0.86:
             x = X.gen_two_commodity(rng)
         elif r < 0.89:
@@ -99,6 +102,21 @@ def run_one(ctx, res, j, xs, bucket=None):
         if want == 'reject' and st == 0:
             res.violations.append(dict(key='unbalanced-exit-zero', desc='exit status 0 although a transaction does not balance',
                                        case=dict(journal=text, xact=i), observed='status 0', required='non-zero status'))
+        if getattr(x, 'kind_tag', None) == 'half':
+            # "to within that commodity's display precision": a residue clearly below half a unit of the precision $ has been
+            # taught by the posting amounts read so far is accepted, one clearly above it is refused - whatever else the
+            # transaction holds (an exactly cancelling second commodity makes the tested value a two-entry balance)
+            r_ = x.residual()
+            if set(r_) == {'$'}:
+                prec = max([q.amt.dec for y in xs[:i + 1] for q in y.posts if q.amt is not None and q.amt.sym == '$'] or [0])
+                half = F(1, 2 * 10 ** prec)
+                res.count('half-unit:' + ('two-entry-balance' if len(set(q.amt.sym for q in x.posts if q.amt)) > 2 else 'one-entry'))
+                if abs(r_['$']) * 10 < half * 9 and i in rejected:
+                    res.violations.append(dict(key='within-precision-rejected', desc='a residue of $%s, below half a unit of the %d decimals $ is displayed with, was refused (%s)' % (r_['$'], prec, errs[i]),
+                                               case=dict(journal=text, xact=i), observed=impl, required='accepted'))
+                if abs(r_['$']) * 10 > half * 11 and i not in rejected:
+                    res.violations.append(dict(key='beyond-precision-accepted', desc='a residue of $%s, above half a unit of the %d decimals $ is displayed with, was accepted' % (r_['$'], prec),
+                                               case=dict(journal=text, xact=i), observed=impl, required='Transaction does not balance'))
         if len(res.samples) < 5 and x.posts and (any(p.cost for p in x.posts) or i in rejected):
             res.samples.append(dict(xact=x.text(i), impl=impl[:300]))
     # grand total at cost over must-balance postings of accepted, exactly balanced journals
